@@ -4,7 +4,7 @@ CONSTANTS
   BaseNames <- MCBaseNames
   MaxDefs = 5
   MaxFiles = 3
-  PoolSel = {1,2,3,4,5,6,7,8,9,10,11,13,14,16,18,20,21,22}
+  PoolSel = {1,2,3,4,5,6,7,8,9,10,11,13,14,15,16,18,19,20,21,22}
 INVARIANTS TypeOK MeasureNat TempIsStack EmittedOnce TemporariesEmpty TopoOrder CycleReported OrderIndependent FixedPointScoped EmitCase EmitDb CountAmbiguous
 PROPERTIES Progress
 CHECK_DEADLOCK FALSE
